@@ -35,7 +35,22 @@ pub struct Plan {
     pub skew_heap: u64,
     pub skew_mmap: u64,
     pub env_pad: u32,
+    /// Clock seam: the simulated clock starts at `clock_base` seconds after the epoch and advances
+    /// by `clock_step_ns` per read. gram reads no clock; owning the seam turns that from an
+    /// assertion into a measurement (reads are counted) and makes a change that starts reading
+    /// the clock fail replayably instead of flakily.
+    pub clock_base: u64,
+    pub clock_step_ns: u64,
+    /// Process-identity seam: what getpid() returns.
+    pub pid: u32,
+    /// In-process tier only: run the stages this many extra times on the same thread first and
+    /// observe the last run ("repeated calls" in one process: later RandomStates, warm state).
+    pub repeat: u32,
 }
+
+pub const REF_CLOCK_BASE: u64 = 1_700_000_000;
+pub const REF_CLOCK_STEP_NS: u64 = 1_000_000;
+pub const REF_PID: u32 = 4242;
 
 impl Plan {
     pub fn plain(kind: &str, key: [u8; 16]) -> Plan {
@@ -48,7 +63,15 @@ impl Plan {
             skew_heap: 0,
             skew_mmap: 0,
             env_pad: 0,
+            clock_base: REF_CLOCK_BASE,
+            clock_step_ns: REF_CLOCK_STEP_NS,
+            pid: REF_PID,
+            repeat: 0,
         }
+    }
+
+    pub fn has_identity_fault(&self) -> bool {
+        self.clock_base != REF_CLOCK_BASE || self.clock_step_ns != REF_CLOCK_STEP_NS || self.pid != REF_PID
     }
 
     pub fn key_hex(&self) -> String {
@@ -73,6 +96,10 @@ impl Plan {
             "skew_heap": self.skew_heap,
             "skew_mmap": self.skew_mmap,
             "env_pad": self.env_pad,
+            "clock_base": self.clock_base,
+            "clock_step_ns": self.clock_step_ns,
+            "pid": self.pid,
+            "repeat": self.repeat,
         })
     }
 
@@ -94,6 +121,10 @@ impl Plan {
             skew_heap: v.get("skew_heap").and_then(Value::as_u64).unwrap_or(0),
             skew_mmap: v.get("skew_mmap").and_then(Value::as_u64).unwrap_or(0),
             env_pad: v.get("env_pad").and_then(Value::as_u64).unwrap_or(0) as u32,
+            clock_base: v.get("clock_base").and_then(Value::as_u64).unwrap_or(REF_CLOCK_BASE),
+            clock_step_ns: v.get("clock_step_ns").and_then(Value::as_u64).unwrap_or(REF_CLOCK_STEP_NS),
+            pid: v.get("pid").and_then(Value::as_u64).unwrap_or(u64::from(REF_PID)) as u32,
+            repeat: v.get("repeat").and_then(Value::as_u64).unwrap_or(0) as u32,
         })
     }
 }
@@ -105,6 +136,9 @@ pub struct CallLog {
     pub calls: Vec<(usize, u32, i64)>,
     /// The shim's constructor reported that it displaced the heap / mmap area (exec tier).
     pub skewed: bool,
+    /// Reads of the simulated clock / of the simulated pid by the launched code.
+    pub clock_reads: u64,
+    pub pid_reads: u64,
 }
 
 impl CallLog {
@@ -120,9 +154,19 @@ impl CallLog {
     pub fn parse(text: &str) -> CallLog {
         let mut calls = vec![];
         let mut skewed = false;
+        let mut clock_reads = 0;
+        let mut pid_reads = 0;
         for line in text.lines() {
             if line.starts_with("S ") {
                 skewed = true;
+                continue;
+            }
+            if line == "T" {
+                clock_reads += 1;
+                continue;
+            }
+            if line == "P" {
+                pid_reads += 1;
                 continue;
             }
             let mut it = line.split_whitespace();
@@ -132,7 +176,7 @@ impl CallLog {
                 }
             }
         }
-        CallLog { calls, skewed }
+        CallLog { calls, skewed, clock_reads, pid_reads }
     }
 }
 
@@ -145,6 +189,11 @@ struct State {
     chunk: usize,
     log: Vec<(usize, u32, i64)>,
     installed: bool,
+    clock_base: u64,
+    clock_step_ns: u64,
+    clock_reads: u64,
+    pid: u32,
+    pid_reads: u64,
 }
 
 /// Key used by threads that are not simulated launches (the harness itself).
@@ -160,6 +209,11 @@ thread_local! {
         chunk: 0,
         log: Vec::new(),
         installed: false,
+        clock_base: 0,
+        clock_step_ns: 0,
+        clock_reads: 0,
+        pid: 0,
+        pid_reads: 0,
     }) };
 }
 
@@ -193,14 +247,24 @@ pub fn install(plan: &Plan) {
         s.chunk = plan.chunk as usize;
         s.log.clear();
         s.installed = true;
+        s.clock_base = plan.clock_base;
+        s.clock_step_ns = plan.clock_step_ns;
+        s.clock_reads = 0;
+        s.pid = plan.pid;
+        s.pid_reads = 0;
     });
 }
 
 /// The calls the seam served on this thread since `install`.
 pub fn take_log() -> CallLog {
-    STATE.with(|s| CallLog {
-        calls: std::mem::take(&mut s.borrow_mut().log),
-        skewed: false,
+    STATE.with(|s| {
+        let mut s = s.borrow_mut();
+        CallLog {
+            calls: std::mem::take(&mut s.log),
+            skewed: false,
+            clock_reads: s.clock_reads,
+            pid_reads: s.pid_reads,
+        }
     })
 }
 
@@ -263,5 +327,75 @@ pub unsafe extern "C" fn getrandom(buf: *mut c_void, buflen: usize, flags: c_uin
             unsafe { *__errno_location() = errno };
             -1
         }
+    }
+}
+
+#[repr(C)]
+pub struct Timespec {
+    tv_sec: i64,
+    tv_nsec: i64,
+}
+
+unsafe extern "C" {
+    fn syscall(num: std::ffi::c_long, ...) -> std::ffi::c_long;
+}
+
+const SYS_CLOCK_GETTIME: std::ffi::c_long = 228;
+const SYS_GETPID: std::ffi::c_long = 39;
+
+/// Clock seam, in-process side. A launch thread (one with an installed plan) reads the plan's
+/// simulated clock; every other thread of the harness gets the real one by raw system call, so
+/// the harness's own watchdogs keep working.
+///
+/// # Safety
+/// `ts` must be null or valid for writes, as for the libc function it replaces.
+#[cfg(all(target_os = "linux", target_arch = "x86_64"))]
+#[unsafe(no_mangle)]
+pub unsafe extern "C" fn clock_gettime(clk: c_int, ts: *mut Timespec) -> c_int {
+    let simulated = STATE
+        .try_with(|s| {
+            let Ok(mut s) = s.try_borrow_mut() else { return None };
+            if !s.installed {
+                return None;
+            }
+            let total = s.clock_step_ns.wrapping_mul(s.clock_reads);
+            s.clock_reads += 1;
+            Some((s.clock_base.wrapping_add(total / 1_000_000_000), total % 1_000_000_000))
+        })
+        .unwrap_or(None);
+    match simulated {
+        Some((sec, nsec)) => {
+            if !ts.is_null() {
+                // SAFETY: the caller guarantees `ts` is valid for writes.
+                unsafe {
+                    (*ts).tv_sec = sec as i64;
+                    (*ts).tv_nsec = nsec as i64;
+                }
+            }
+            0
+        }
+        // SAFETY: plain system call with the caller's arguments.
+        None => unsafe { syscall(SYS_CLOCK_GETTIME, clk, ts) as c_int },
+    }
+}
+
+/// Process-identity seam, in-process side.
+#[cfg(all(target_os = "linux", target_arch = "x86_64"))]
+#[unsafe(no_mangle)]
+pub extern "C" fn getpid() -> c_int {
+    let simulated = STATE
+        .try_with(|s| {
+            let Ok(mut s) = s.try_borrow_mut() else { return None };
+            if !s.installed {
+                return None;
+            }
+            s.pid_reads += 1;
+            Some(s.pid)
+        })
+        .unwrap_or(None);
+    match simulated {
+        Some(pid) => pid as c_int,
+        // SAFETY: plain system call without arguments.
+        None => unsafe { syscall(SYS_GETPID) as c_int },
     }
 }
